@@ -320,6 +320,7 @@ func checkC03(c *Ctx) {
 	c.checkBoundPairs("O5 bound-pairs", fVal, fDur)
 	c.checkSortedCopy("O5 sorted-copy")
 	c.checkSingleBucket("O5 open-ends")
+	c.checkPairsDefault("O5 pairs-default")
 	c.checkBucketStorage("O5 storage-fields", fVal, fDur)
 	c.checkPairAccessors("O5 pair-accessors")
 	c.checkBucketsUsed("O7 buckets-used")
@@ -1186,4 +1187,89 @@ func (c *Ctx) checkCachedBucketPerBucket(rule string) {
 	}
 	c.check(esc == nil, rule, key, stores[0].Pos(), "with a cached histogram every bucket of either kind gets its cached bucket handle",
 		"an iteration of the per-bucket loop can finish without storing a cached bucket handle although a cached histogram is present (a condition on the bucket's bounds or index): the cached report pass calls that nil handle as soon as the bucket has a sample (nil pointer panic), e.g. for -Inf / the minimum bound")
+}
+
+// checkPairsDefault (O5): BucketPairs answers with the single open bucket exactly for a nil or empty
+// specification. A weaker test (nil only) indexes element 0 of an empty list (panic); a stronger one
+// (Len() <= 1) throws away a one-bound specification and counts everything in one bucket.
+func (c *Ctx) checkPairsDefault(rule string) {
+	fn := c.fn("", "", "BucketPairs")
+	if fn == nil || len(fn.Params) != 1 {
+		c.missing(rule, "tally.BucketPairs")
+		return
+	}
+	key := c.fnKey(fn)
+	c.sawFunc(key)
+	param := ssa.Value(fn.Params[0])
+	// the early return: a return whose value is a one-element slice literal holding _singleBucket
+	var early *ssa.Return
+	for _, r := range returnsOf(fn) {
+		for _, va := range resultValues(r, 0) {
+			sl, ok := stripConv(va.Val).(*ssa.Slice)
+			if !ok {
+				continue
+			}
+			if al, isAl := sl.X.(*ssa.Alloc); isAl {
+				if arr, isArr := deref(al.Type()).Underlying().(*types.Array); isArr && arr.Len() == 1 {
+					early = r
+				}
+			}
+		}
+	}
+	if early == nil {
+		c.bad(rule, key, fn.Pos(), "BucketPairs has no answer for a nil / empty specification (the single open bucket)")
+		return
+	}
+	allowed := map[*ssa.BasicBlock]int{}
+	for _, b := range fn.Blocks {
+		iff, isIf := condOf(b)
+		if !isIf {
+			continue
+		}
+		op, x, y, okc := cmpOf(iff.Cond)
+		if !okc {
+			continue
+		}
+		if op == token.EQL || op == token.NEQ {
+			xx, yy := x, y
+			if isNilConst(xx) {
+				xx, yy = yy, xx
+			}
+			if canon(stripConv(xx)) == param && isNilConst(yy) {
+				allowed[b] = b2i(op != token.EQL)
+				continue
+			}
+		}
+		lenCall := func(v ssa.Value) bool {
+			ci, isCall := stripConv(v).(*ssa.Call)
+			if !isCall {
+				return false
+			}
+			r, m := ifaceCall(ci)
+			return m != nil && m.Name() == "Len" && canon(stripConv(r)) == param
+		}
+		if lenCall(y) {
+			x, y = y, x
+			op = flipCmp(op)
+		}
+		if !lenCall(x) {
+			continue
+		}
+		k, isK := constInt(y)
+		if !isK {
+			continue
+		}
+		switch {
+		case (op == token.LSS && k == 1) || (op == token.LEQ && k == 0) || (op == token.EQL && k == 0):
+			allowed[b] = 0
+		case (op == token.GEQ && k == 1) || (op == token.GTR && k == 0) || (op == token.NEQ && k == 0):
+			allowed[b] = 1
+		}
+	}
+	e := entryInstr(fn)
+	reach := e != nil && reachThreaded(e, early, nil, nil)
+	other := e != nil && reachThreaded(e, early, allowed, nil)
+	// ... and every other path has passed both tests: the first element is read only when there is one
+	c.check(reach && !other && len(allowed) >= 2, rule, key, early.Pos(), "the single open bucket is the answer exactly for a nil or empty specification",
+		"BucketPairs returns the single open bucket under a condition other than `buckets == nil || buckets.Len() < 1`: an empty specification falls through to `sorted[0]` (index out of range), or a one-bound specification is discarded and every sample is counted in one bucket", c.describe(early))
 }
